@@ -58,7 +58,6 @@ QV(q, dg, b, qd, ex, sh) ==
 Count       == Leaf(<<>>, "int32")
 
 DefaultFloat(tree) == IF tree.x64 THEN "float64" ELSE "float32"   \* jnp.zeros(shape) without dtype
-DefaultInt(tree)   == IF tree.x64 THEN "int64" ELSE "int32"       \* jnp.stack of python ints
 Promote(a, b)      == IF a = "float64" \/ b = "float64" THEN "float64" ELSE "float32"
 
 NParams(tree) == Len(tree.shapes)
@@ -205,7 +204,7 @@ ShState(c, tree, rows, ms, pd, expdt, locals) ==
 (* sharded_init_fn *)
 DSInitSharded(c, tree) ==
   ShState(c, tree, ShRows(c, tree), ShMS(c, tree), PrecondDim(c.rank, ShMS(c, tree)),
-          DefaultInt(tree),
+          "int32",                  \* exponents: jnp.array(exponents, jnp.int32), also under x64
           [i \in 1..NParams(tree) |-> ShLocal(c, tree, i, Len(DSDims(c, tree.shapes[i])))])
 
 (* sharded_init_shape_and_dtype_fn: written independently in the source        *)
@@ -577,8 +576,7 @@ UpdatesHaveParamLayout == phase \in {"inited", "updated"} => UpdatesOK(case)
 (* sharded mode: the three descriptions are one tree *)
 IsSharded(k) == k.opt = "ds" /\ k.cfg.mode = "shard"
 ShardedDeclaredAgrees ==
-  phase = "inited" /\ IsSharded(case) /\ ~case.tree.x64
-     => DSDeclaredSharded(case.cfg, case.tree) = layout
+  phase = "inited" /\ IsSharded(case) => DSDeclaredSharded(case.cfg, case.tree) = layout
 ShardedPSpecAgrees ==
   phase = "inited" /\ IsSharded(case)
      => DSSkelPSpec(case.cfg, case.tree) = DSSkelInit(case.cfg, case.tree)
